@@ -220,24 +220,29 @@ class HAPServerHandler:
         self, request: h11.Request, body: Optional[bytes] = None
     ) -> HAPResponse:
         """Dispatch the request to the appropriate handler method."""
-        self.path = request.target.decode()
-        self.command = request.method.decode()
-        self.headers = {k.decode(): v.decode() for k, v in request.headers}
-        self.request_body = body
-        self.parsed_url = urlparse(self.path)
         response = HAPResponse()
         self.response = response
-
-        logger.debug(
-            "%s: Request %s for path '%s': %s",
-            self.client_address,
-            self.command,
-            self.path,
-            self.headers,
-        )
-
-        path = self.parsed_url.path
+        path = None
         try:
+            # Decoding the request line and headers and parsing the
+            # target can fail on hostile input; keep them inside the
+            # protected region so that the peer gets a 500 instead of
+            # an exception propagating out of data_received.
+            self.path = request.target.decode()
+            self.command = request.method.decode()
+            self.headers = {k.decode(): v.decode() for k, v in request.headers}
+            self.request_body = body
+            self.parsed_url = urlparse(self.path)
+
+            logger.debug(
+                "%s: Request %s for path '%s': %s",
+                self.client_address,
+                self.command,
+                self.path,
+                self.headers,
+            )
+
+            path = self.parsed_url.path
             getattr(self, self.HANDLERS[self.command][path])()
         except UnprivilegedRequestException:
             self.send_response_with_status(
